@@ -24,18 +24,29 @@ ChainInt(ch, i, nn) == IF i > Len(ch) THEN Full(nn)
 ChainExt(ch) == \E i \in 1..Len(ch) : ch[i].ext
 
 (* ---- what the code is known to do instead -------------------------------- *)
-\* D_C04_right_assoc: the lexer nests a flat expression to the right whatever the operators
-\* (a op1 (b op2 c)) and EXCEPT returns its left operand; it matters exactly when a lower
-\* binding operator follows a higher binding one.
-RECURSIVE CodeFold(_, _, _, _)
-CodeFold(xs, qs, i, nn) ==
-    IF i = Len(xs) THEN P!OpInt(xs[i], nn)
-    ELSE LET rest == CodeFold(xs, qs, i + 1, nn) IN
-         CASE qs[i] = "x" -> P!OpInt(xs[i], nn)
-           [] qs[i] = "u" -> P!Hull(P!OpInt(xs[i], nn), rest)
-           [] OTHER       -> P!Inter(P!OpInt(xs[i], nn), rest)
+\* D_C04_fold: how the code folds a flat expression, modelled structurally:
+\*   - the lexer nests it to the right whatever the operators:  a op1 (b op2 c)
+\*   - EXCEPT returns its left operand and drops everything to its right
+\*   - single value ^ range returns the single value without checking that the range contains it
+\*   - range ^ range takes max of the lower and min of the upper bounds (possibly inverted)
+\* A folded value is [lo, hi, single]; `single` is structural (a SingleValue element).
+CodeElem(o, nn) == LET r == P!OpInt(o, nn) IN [lo |-> r.lo, hi |-> r.hi, single |-> (o.lo = o.hi)]
+RECURSIVE CodeFoldS(_, _, _, _)
+CodeFoldS(xs, qs, i, nn) ==
+    IF i = Len(xs) THEN CodeElem(xs[i], nn)
+    ELSE LET a == CodeElem(xs[i], nn)
+             b == CodeFoldS(xs, qs, i + 1, nn)
+         IN CASE qs[i] = "x" -> a
+              [] qs[i] = "u" -> [lo |-> P!Min(a.lo, b.lo), hi |-> P!Max(a.hi, b.hi), single |-> FALSE]
+              [] a.single /\ ~b.single -> a
+              [] b.single /\ ~a.single -> b
+              [] a.single /\ b.single -> a        \* unequal singles make the generator give up (a warning)
+              [] OTHER -> [lo |-> P!Max(a.lo, b.lo), hi |-> P!Min(a.hi, b.hi), single |-> FALSE]
+CodeFold(xs, qs, i, nn) == LET r == CodeFoldS(xs, qs, i, nn) IN
+                           IF r.lo > r.hi THEN P!EMPTY ELSE [lo |-> r.lo, hi |-> r.hi]
 Prec(p) == CASE p = "x" -> 3 [] p = "i" -> 2 [] OTHER -> 1
-RightAssocClass(qs) == \E i \in 1..(Len(qs) - 1) : Prec(qs[i]) > Prec(qs[i+1])
+\* the input class: expressions on which that fold differs from the effective constraint
+FoldClass(xs, qs, nn) == Len(xs) >= 2 /\ CodeFold(xs, qs, 1, nn) # P!EffExpr(xs, qs, nn)
 
 \* D_C04_open_end: the lexer drops the "<" of an open range end (0<..5 is read as 0..5)
 Closed(o) == [o EXCEPT !.lox = FALSE, !.hix = FALSE]
@@ -46,16 +57,17 @@ OpenEndClass(xs, sr) == (\E i \in 1..Len(xs) : xs[i].lox \/ xs[i].hix) \/ (\E i 
 CodeEff(D, e, nn) ==
     LET xs == IF "D_C04_open_end" \in D THEN ClosedSeq(e.os) ELSE e.os
         sr == IF "D_C04_open_end" \in D THEN ClosedSer(e.ser) ELSE e.ser
-    IN IF "D_C04_right_assoc" \in D
+    IN IF "D_C04_fold" \in D
        THEN P!EffSerial(CodeFold(xs, e.ps, 1, nn), sr, 1, nn)
        ELSE P!Eff(xs, e.ps, sr, nn)
 
 \* D_C04_ext_unbounded: a marker on a constraint whose bound is MIN..MAX (sizes: 0..MAX) is
 \*   dropped together with the (empty) annotation
 \* D_C04_ext_except: the lexer attaches the outer ", ..." to the last operand; when that
-\*   operand follows EXCEPT it is discarded and the marker with it
+\*   operand lies to the right of an EXCEPT it is discarded and the marker with it
 AnyMarker(e) == e.ext \/ \E i \in 1..Len(e.ser) : e.ser[i].ext
-LastIsExcept(e) == Len(e.ps) > 0 /\ e.ps[Len(e.ps)] = "x"
+\* (the expression is nested to the right, so any EXCEPT drops the last operand and its marker)
+LastIsExcept(e) == \E j \in 1..Len(e.ps) : e.ps[j] = "x"
 \* the markers that survive in the code, constraint by constraint
 FirstFull(D, e, nn) == CodeEff(D, [e EXCEPT !.ser = <<>>], nn) = Full(nn)
 CodeExt1(D, e, nn) == /\ e.ext
@@ -66,12 +78,12 @@ CodeSer(D, e, nn) == [j \in 1..Len(e.ser) |->
 CodeFlagOK(D, e, nn, flag) == P!ExtAllowed(flag, CodeExt1(D, e, nn), CodeSer(D, e, nn))
 
 Applicable(D, e, nn) ==
-    /\ "D_C04_right_assoc" \in D => RightAssocClass(e.ps)
+    /\ "D_C04_fold" \in D => FoldClass(IF "D_C04_open_end" \in D THEN ClosedSeq(e.os) ELSE e.os, e.ps, nn)
     /\ "D_C04_open_end" \in D => OpenEndClass(e.os, e.ser)
     /\ "D_C04_ext_unbounded" \in D => \/ (e.ext /\ FirstFull(D, e, nn))
                                        \/ \E j \in 1..Len(e.ser) : e.ser[j].ext /\ P!OpInt(e.ser[j].o, nn) = Full(nn)
     /\ "D_C04_ext_except" \in D => (e.ext /\ LastIsExcept(e))
-AllDevs == {"D_C04_right_assoc", "D_C04_open_end", "D_C04_ext_unbounded", "D_C04_ext_except"}
+AllDevs == {"D_C04_fold", "D_C04_open_end", "D_C04_ext_unbounded", "D_C04_ext_except"}
 
 Explains(D, e, nn, obs, flag) == Applicable(D, e, nn) /\ obs = CodeEff(D, e, nn) /\ CodeFlagOK(D, e, nn, flag)
 
